@@ -1232,11 +1232,19 @@ class HttpHeaderFieldValueContentTypeCharset(FieldValueComponentString):
     def get_canonical_name(cls):
         return 'charset'
 
+    @classmethod
+    def _check_name(cls, name):
+        cls._check_name_insensitive(name)
+
 
 class HttpHeaderFieldValueContentTypeBoundary(FieldValueComponentString):
     @classmethod
     def get_canonical_name(cls):
         return 'boundary'
+
+    @classmethod
+    def _check_name(cls, name):
+        cls._check_name_insensitive(name)
 
 
 @attr.s
@@ -1330,11 +1338,19 @@ class HttpHeaderFieldValueSetCookieParamDomain(FieldValueComponentString):
     def get_canonical_name(cls):
         return 'Domain'
 
+    @classmethod
+    def _check_name(cls, name):
+        cls._check_name_insensitive(name)
+
 
 class HttpHeaderFieldValueSetCookieParamPath(FieldValueComponentString):
     @classmethod
     def get_canonical_name(cls):
         return 'Path'
+
+    @classmethod
+    def _check_name(cls, name):
+        cls._check_name_insensitive(name)
 
 
 class HttpHeaderFieldValueSetCookieParamSecure(FieldValueComponentOption):
@@ -1365,6 +1381,10 @@ class HttpHeaderFieldValueSetCookieParamSameSite(FieldValueComponentStringEnum):
     @classmethod
     def get_canonical_name(cls):
         return 'SameSite'
+
+    @classmethod
+    def _check_name(cls, name):
+        cls._check_name_insensitive(name)
 
     @classmethod
     def _get_value_type(cls):
